@@ -728,6 +728,7 @@ def symbolic_for(I, node, env, it, spec, k, qn):
             try:
                 I.exec_block(node.body, env)
             except _pyvc()._Break:
+                I.path.event('loop.break', k)      # the loop is left before its iterable is exhausted
                 return
             except _pyvc()._Continue:
                 pass
@@ -777,6 +778,7 @@ def symbolic_for(I, node, env, it, spec, k, qn):
             try:
                 I.exec_block(node.body, env)
             except _pyvc()._Break:
+                I.path.event('loop.break', k)      # the loop is left before its iterable is exhausted
                 return
             except _pyvc()._Continue:
                 pass
@@ -830,6 +832,7 @@ def symbolic_while(I, node, env, spec, k, qn):
         try:
             I.exec_block(node.body, env)
         except _pyvc()._Break:
+            I.path.event('loop.break', k)      # the loop is left before its iterable is exhausted
             return
         except _pyvc()._Continue:
             pass
